@@ -188,7 +188,10 @@ def build_unit(contract, case, contracts, world):
         u.entry = entry
         # vacuity guard: the precondition must be satisfiable (expected status: sat)
         ip.vcs.append(VC("cover requires", "cover", list(entry.pc), FALSE, ""))
-        if case.generator:
+        if case.generator and case.yields == "Any":
+            # finitely many yields of values of any kind: the yielded values are kept as they are
+            st.env["out"] = ip.new_cell(st, PyListCell([]))
+        elif case.generator:
             sort = ip.lst_sort(case.yields)
             empty = reg.new("out0", sort)
             st.assume(EQ(reg.l_len(empty), I(0)))
@@ -293,3 +296,81 @@ def units_for(contract, contracts, world):
             case.file, case.qual = contract.file, contract.qual
         out.append(build_unit(contract, case, contracts, world))
     return out
+
+
+# --------------------------------------------------------------------------- lemmas over contracts
+class Lemma(object):
+    """a proof obligation over contracts only (no function body): e.g. `reset() leaves the element equal to a new one`"""
+
+    def __init__(self, name, file, props, build, notes=""):
+        self.name, self.file, self.props, self.build, self.notes = name, file, list(props), build, notes
+        self.qual, self.cases, self.trusted = "lemma:" + name, None, False
+
+
+def lemma_unit(lemma, contracts, world):
+    from .contracts import Contract
+    c = Contract(lemma.file, "lemma:" + lemma.name, props=lemma.props, name=lemma.name, notes=lemma.notes)
+    u = Unit(c, c)
+    reg = Registry()
+    u.reg = reg
+    try:
+        modctx = world.modctx(lemma.file)
+        u.src_sha = modctx.sha
+        ip = Interp(reg, modctx, contracts, c, world)
+        u.ip = ip
+        st = State()
+        ip.entry = st.copy()
+        ip.oldst = ip.entry
+        u.entry = ip.entry
+        lemma.build(ip, st)
+        u.n_paths = 1
+        u.vcs = ip.vcs
+        u.assumptions = ip.assumptions
+    except Unsupported as e:
+        u.error, u.error_kind = str(e), "out-of-subset"
+    except Exception as e:
+        u.error, u.error_kind = "%s: %s\n%s" % (type(e).__name__, e, traceback.format_exc()[-1500:]), "crash"
+    return u
+
+
+def reset_equals_init(cls, init_args=()):
+    """lemma builder: for every state field (a field some other method of the class may modify), the value after
+    reset() on an arbitrary object equals the value after __init__ with default arguments"""
+    from .calls import apply_contract, instantiate, eval_spec
+
+    def build(ip, st):
+        cs = ip.contracts.classes[cls]
+        state_fields = set()
+        for c in ip.contracts.by_key.values():
+            for case in (c.cases or [c]):
+                q = c.qual
+                if q.startswith(cls + ".") and not q.endswith(("__init__", ".reset", "._reset")):
+                    for m in case.modifies:
+                        if m.startswith("self."):
+                            state_fields.add(m[5:])
+        if not state_fields:
+            raise Unsupported("reset lemma for %s: no state fields found in the contracts" % cls)
+        # an arbitrary element (object invariant assumed), then reset()
+        a = ip.make("Self[%s]" % cls, "a", st)
+        for inv in cs.invariant:
+            st.assume(eval_spec(ip, st, {"self": a}, inv))
+        ip.entry = st.copy()
+        ip.oldst = ip.entry
+        k = ip.contracts.find_method(cls, "reset") or ip.contracts.find_method(cls, "_reset")
+        if k is None:
+            raise Unsupported("no contract for %s.reset" % cls)
+        outs = apply_contract(ip, st, k, [a], {})
+        s1 = outs[0][0]
+        # a new element
+        outs2 = instantiate(ip, s1, Fun("class", name=cls, mod=None), list(init_args), {})
+        s2, b = outs2[0]
+        for f in sorted(state_fields):
+            va = s2.heap[a.cid].fields.get(f)
+            vb = s2.heap[b.cid].fields.get(f)
+            if va is None or vb is None:
+                ip.emit("lemma", "reset-equals-new-element: field %s is set by both" % f, s2, FALSE)
+                continue
+            ip.emit("lemma", "reset-equals-new-element: field %s" % f, s2, ip.py_eq(s2, va, vb))
+        ip.vcs.append(VC("cover requires", "cover", list(s2.pc), FALSE, ""))
+    return build
+
